@@ -305,7 +305,7 @@ def _layout(prog, chk, Y3):
         for legacy in (False, True):
             for db2 in (False, True):
                 def hook(ev, qn, args, env, node, stmt=False, _a=(dir_exists, legacy, db2)):
-                    if qn and qn.endswith('::path_exists'):
+                    if qn and _exist_func(prog, qn):
                         v = ev.ev(args[0], env)
                         if isinstance(v, tuple) and v and v[0] is d:
                             rest = ''.join(x for x in v[1:] if isinstance(x, str))
@@ -334,9 +334,33 @@ def _layout(prog, chk, Y3):
                 inst = 'dir=%s m.db=%s Database2/m.db=%s' % (dir_exists, legacy, db2)
                 if res == want:
                     chk.ok(Y3, inst + ' -> ' + str(sorted(map(str, res))), locstr(f.node), site=inst)
+                elif any(r[1] is UNKNOWN or 'UNKNOWN' in str(r[1]) for r in res):
+                    chk.unknown(Y3, inst, 'the layout detection uses a construct the finite evaluator does not '
+                                          'model (outcomes %s)' % sorted(map(str, res)))
                 else:
                     chk.violation(Y3, 'detect_is_database2|' + inst, locstr(f.node),
                                   '%s yields %s, expected %s' % (inst, sorted(map(str, res)), sorted(map(str, want))))
+
+
+_EXIST = {}
+
+
+def _exist_func(prog, qn):
+    """qn names a file-existence test: a repository function returning bool whose body calls
+    stat / access / std::filesystem::exists (whatever the function itself is called)."""
+    if qn in _EXIST:
+        return _EXIST[qn]
+    ok = False
+    for g in prog.by_name(qn):
+        if g.body is None or 'bool' not in (g.ret or ''):
+            continue
+        for x in walk(g.body):
+            if x.get('kind') == 'CallExpr':
+                nm = (strip(children(x)[0]).get('referencedDecl') or {}).get('name')
+                if nm in ('stat', '_stat', 'access', '_access', 'exists', 'is_regular_file'):
+                    ok = True
+    _EXIST[qn] = ok
+    return ok
 
 
 def _dispatch(prog, chk, Y4, supported, enum):
